@@ -34,6 +34,7 @@ ASSUMPTIONS = [
     "classical registers are wired by add() only (insert_at ignores c_registers by design); the property speaks of quantum wires",
     "OneQubitGateWrapper noise is the default list (unwrap() of a wrapper with a single noise object adds an Identity)",
     "order inside node_dict / edge_dict lists and inside networkx adjacency is not part of the property (compared as multisets)",
+    "registers change through the edit API only (the public setters emitter_registers/photonic_registers/c_registers of CircuitBase are not edits)",
 ]
 
 
@@ -125,6 +126,16 @@ def oracle_queries(circ, qs, ans):
                 if du.reach(circ, e[1], e2[0]) or du.reach(circ, e2[1], e[0]):
                     bad.append(("query:find_incompatible_edges", f"find_incompatible_edges({f[1]}) reports {du.edge_str(e2)} compatible although a path closes a cycle"))
                     break
+        elif f[0] == "e":
+            labs = [] if f[1] == "*" else f[1].split(".")
+            g = circ.dag
+            want = []
+            for n in g.nodes:
+                keys = ["Input" if n.endswith("_in") else "Output"] if isinstance(n, str) else du.expected_index_keys(g.nodes[n]["op"])
+                if not any(lab in keys for lab in labs):
+                    want.append(du.node_str(n))
+            if val != du.emp(".".join(sorted(want))):
+                bad.append(("query:get_node_exclude_labels", f"get_node_exclude_labels({labs}) = {val}, by predicate {sorted(want)}"))
         elif f[0] == "l":
             labs = [] if f[1] == "*" else f[1].split(".")
             g = circ.dag
@@ -150,6 +161,7 @@ def choose_queries(rng, circ, full):
         labs = rng.sample(["one-qubit", "two-qubit", "Emitter", "Photonic", "Emitter-Emitter", "Emitter-Photonic", "CNOT", "Hadamard",
                            "Input", "Identity", "OneQubitGateWrapper", "mine", "nothing"], rng.choice([1, 1, 2]))
         qs.append("l/" + ".".join(labs))
+        qs.append("e/" + ".".join(rng.sample(["one-qubit", "two-qubit", "Input", "Output", "CNOT", "Identity", "nothing"], 2)))
     return "+".join(qs)
 
 
